@@ -160,7 +160,7 @@ PROPS = {
         assumptions=["x/distribution AllocateTokensToValidator credits exactly the DecCoins it is given; the SDK modules' own invariants are observed (crisis AssertInvariants after every block), not proved"]),
     'C16': dict(
         theorems=['C16_gas_cost', 'C16_required_fee', 'C16_first_covered', 'C16_surplus_irrelevant', 'C16_only_kinds_matter',
-                  'C16_split', 'C16_charged_regardless', 'C16_uncovered_rejected'],
+                  'C16_split', 'C16_charged_regardless', 'C16_uncovered_rejected', 'C16_granter_consents'],
         runs=[func('ante', 'ante', 320, 8000, 'ante_mismatches', 'ante_check_C16', fields=[1, 6, 8], shards_quick=8, shards_thorough=16),
               chain('settle', 'settlement', 24, 800, 'no_check')],
         fields=[12, 20],
@@ -232,7 +232,7 @@ LEVELS = {
                 note=PROOF_NOTE, technique="Coq proof (hex decoding as a number) + differential correspondence on token-id pairs"),
     'C20': dict(text="Unbounded theorems: feeder and chain hash the same byte string; for every publishable NFT and every hex owner answer the formatted entry parses on the chain to the same NFT and the owner's last 20 bytes (needs: decoder = hex number, trimming keeps the number, rendered addresses parse back); the tree-with-eviction cache answers every operation sequence like the specification that remembers all puts and answers from the cap highest timestamps; retained set and lookup characterised. Data-race freedom is observed with the Go race detector (partial). Correspondence through the build-tagged export of the feeder's formatter.",
                 note=PROOF_NOTE, technique="Coq proof: refinement of the cache to its specification, hex/format round trip + differential correspondence + Go race detector runs"),
-    'C16': dict(text="Unbounded theorems: fixed gas cost formula; requirement = floor(price x gas) for every price and gas; the charge is exactly the requirement of the FIRST configured denomination the offered fee covers; it is independent of any surplus offered and of everything but the message kinds; collector floor(f(1-q)) and pool floor(fq) sum to f or f-1 for every q in [0,1]; the pool share is credited whether the messages succeed, fail or panic; an uncovered transaction changes nothing. Correspondence: parameterised fee cases through ABCI with the three transfers read from the transaction's bank events, plus the reward pool in chain histories.",
+    'C16': dict(text="Unbounded theorems: fixed gas cost formula; requirement = floor(price x gas) for every price and gas; the charge is exactly the requirement of the FIRST configured denomination the offered fee covers; it is independent of any surplus offered and of everything but the message kinds; collector floor(f(1-q)) and pool floor(fq) sum to f or f-1 for every q in [0,1]; the pool share is credited whether the messages succeed, fail or panic; an uncovered transaction changes nothing; a fee granter other than the payer is charged only if its allowance covers the fixed fee. Correspondence: parameterised fee cases through ABCI with the three transfers read from the transaction's bank events (the debited account is the fee granter when one is named: allowances without limit, of exactly the fee, one unit short, in another denomination, none), plus the reward pool in chain histories.",
                 note=PROOF_NOTE, technique="Coq proof (Dec arithmetic, nia) + differential correspondence on parameterised settlement transactions through ABCI"),
     'C03': dict(text="Unbounded theorems over ALL transaction shapes (any message list, authz exec nested to any depth, grants, any signer / fee payer): every oracle message an admitted transaction executes is covered by the signature of the validator's operator or current feeder; an admitted transaction that executes an oracle message consists of exactly that message; handlers change only the named validator's ballot. Correspondence: ~240 shapes per run delivered through ABCI, admitted <-> code 0 compared with the model, effects on ballots observed.",
                 note=PROOF_NOTE, technique=ANTE_TECH),
